@@ -334,9 +334,8 @@ class FmtStr:
     def copy_with_new_str(self, new_str: str) -> "FmtStr":
         """Copies the current FmtStr's attributes while changing its string."""
         # What to do when there are multiple Chunks with conflicting atts?
-        old_atts = {
-            att: value for bfs in self.chunks for (att, value) in bfs.atts.items()
-        }
+        chunks = [bfs for bfs in self.chunks if len(bfs) > 0] or self.chunks
+        old_atts = {att: value for bfs in chunks for (att, value) in bfs.atts.items()}
         return FmtStr(Chunk(new_str, old_atts))
 
     def setitem(self, startindex: int, fs: Union[str, "FmtStr"]) -> "FmtStr":
